@@ -1509,6 +1509,20 @@ VOTEPARAMS = [
          struct={"SortVoting": ("SVP", {"threshold": "threshold", "candidate_num": "candidate_num", "track_num": "track_num"})}, Self="SortVoting",
          cast={"i64": "quant {0}"}, path={"F32_U64_MULT": "mult"}),
     dict(VP_COMMON, name="sort_voting_params", file="trackers/sort/simple_api.rs", impl=r"impl Sort \{"),
+    dict(group="VoteParams", name="visual_voting_new", file="trackers/visual_sort/voting.rs", impl=r"impl VisualVoting \{", fn="new",
+         sig="(positional_threshold max_allowed_feature_distance : Rat) (min_winner_feature_votes : Nat) : VVP",
+         struct={"VisualVoting": ("VVP", {"positional_threshold": "positional_threshold", "max_allowed_feature_distance": "max_allowed_feature_distance",
+                                          "min_winner_feature_votes": "min_winner_feature_votes"})}, Self="VisualVoting"),
+] + [
+    dict(group="VoteParams", name=nm, file=f, impl=impl, fn=fn, snippet=r"let voting = VisualVoting::new\(.*?\);", imperative=True, result="voting",
+         sig="(mahaThr f32max : Rat) (positional_kind : PosKind) (visual_min_votes : Nat) : VVP",
+         fieldpath={"self.metric_opts.positional_kind": "positional_kind", "self.metric_opts.visual_min_votes": "visual_min_votes",
+                    "metric_opts.positional_kind": "positional_kind", "metric_opts.visual_min_votes": "visual_min_votes"},
+         pctor={"PositionalMetricType::Mahalanobis": "PosKind.maha", "PositionalMetricType::IoU": "PosKind.iou"},
+         path={"MAHALANOBIS_NEW_TRACK_THRESHOLD": "mahaThr", "f32::MAX": "f32max"},
+         call={"VisualVoting::new": "visual_voting_new {0} {1} {2}"})
+    for nm, f, impl, fn in [("visual_voting_params", "trackers/visual_sort/simple_api.rs", r"impl VisualSort \{", "predict_with_scene"),
+                            ("batch_visual_voting_params", "trackers/visual_sort/batch_api.rs", None, "voting_thread")]
 ]
 
 # ---- batch requests: detections grouped per scene (C06)
@@ -1957,6 +1971,11 @@ PRELUDE_VP = """/-- `PositionalMetricType` (decision kernels: the IoU threshold 
 inductive PosKind where
   | maha
   | iou (thr : Rat)
+/-- `VisualVoting` -/
+structure VVP where
+  positional_threshold : Rat
+  max_allowed_feature_distance : Rat
+  min_winner_feature_votes : Nat
 /-- `SortVoting` -/
 structure SVP where
   threshold : Int
